@@ -14,11 +14,11 @@ import (
 
 type zzAssignCloud struct {
 	*zzCloud
-	out4, out6   int // 0 success, 1 error without result, 2 error with a named partial result (the cloud assigned it)
-	calls4       int
-	calls6       int
-	asked4       int
-	asked6       int
+	out4, out6 int // 0 success, 1 error without result, 2 error with a named partial result (the cloud assigned it)
+	calls4     int
+	calls6     int
+	asked4     int
+	asked6     int
 }
 
 func (c *zzAssignCloud) AssignPrivateIPAddressV2(ctx context.Context, opts ...aliyunClient.AssignPrivateIPAddressOption) ([]aliyunClient.IPSet, error) {
